@@ -1,5 +1,6 @@
 import Lox.Drv.Common
 import Lox.Dec.Assign
+import Lox.Dec.AssignNames
 /-! Driver op `dec.assign <case>` (C06). Core Lean only.
 
 Case encoding (sections separated by `|`):
@@ -17,7 +18,10 @@ nT tokenTy errorTy | A | I | S | rules | prods | methods
 
 Answer: `ok <emitBounds> | <method index per production, -1 = none> | <type per rule, -1 = none>`
 (a type is printed as the least index of a type identical to it),
-`fail <kind:subject …>` (sorted) or `panic <message>`. -/
+`fail <kind:subject …>` (sorted) or `panic <message>`.
+
+`dec.assignwf <case>` answers `wf=<0|1> ident=<0|1>`: whether the case satisfies the hypotheses `WF`
+and `IdentEquiv` under which the theorems of `Lox/Props/C06.lean` speak about it. -/
 namespace Lox.Dec.Assign
 
 open Lox.Drv
@@ -81,7 +85,9 @@ def parseCase (payload : String) : Option (Nat × Case) :=
       let prods ← ((ps.splitOn ";").filter (·.trimAscii.toString ≠ "")).mapM parseProd
       let methods ← ((ms.splitOn ";").filter (·.trimAscii.toString ≠ "")).mapM parseMethod
       some (n, {
-        assignable := matGet am, identical := matGet im
+        assignable := matGet am
+        -- outside the tabulated universe `Identical` is equality (see `identEquiv_of_check`)
+        identical := fun i j => if i < n && j < n then matGet im i j else i == j
         sliceOf := fun t => ((sl.find? (·.1 == t)).map (·.2)).getD 0
         tokenTy := tok, errorTy := err, rules := rules, prods := prods, methods := methods })
     | _ => none
@@ -114,10 +120,19 @@ def showResult (c : Case) (n : Nat) : Result → String
   | .fail ds => "fail " ++ " ".intercalate ((ds.map showDiag).mergeSort (fun a b => a ≤ b))
   | .panic m => "panic " ++ m
 
+/-- `dec.assignwf <case>`: the hypotheses of the theorems of `Lox.Props.C06`, decided on the case:
+`wf` = `decide (WF c)`, `ident` = `identCheck c n` (`Identical` is an equivalence on the universe). -/
+def showHyps (c : Case) (n : Nat) : String :=
+  "wf=" ++ (if decide (WF c) then "1" else "0") ++ " ident=" ++ (if identCheck c n then "1" else "0")
+
 def handleAssign (op payload : String) : Option String :=
   if op == "dec.assign" then
     some (match parseCase payload with
       | some (n, c) => showResult c n (assign c)
+      | none => "error: malformed case")
+  else if op == "dec.assignwf" then
+    some (match parseCase payload with
+      | some (n, c) => showHyps c n
       | none => "error: malformed case")
   else none
 
